@@ -53,16 +53,23 @@ def base_prog(static):
 class ReplaySession(object):
     """Records P once on a cassette, then replays variants and watches the cassette."""
 
-    def __init__(self, ctx, prog, kind, world_seed=None, raise_rate=0.0, force_raise=None):
+    def __init__(self, ctx, prog, kind, world_seed=None, raise_rate=0.0, force_raise=None, verbose=False):
         from playback.tape_recorder import TapeRecorder
+        from vlib.programs import unprintable_values
         self.ctx = ctx
+        # verbose: the framework's loggers are at DEBUG, the service object and some of the values it handles can be printed by their
+        # owner only (their __repr__ raises for the framework and for the logging module)
+        self.verbose = verbose
+        if verbose:
+            prog = dict(prog, unprintable_self=True)
         self.cm = open_box(kind)
         self.box = self.cm.__enter__()
         self.spy = SpyCassette(self.box.cassette)
         self.rec = TapeRecorder(self.spy)
         self.rec.enable_recording()
-        self.live = Built(prog, self.rec, World(world_seed or prog['seed_world'], raise_rate=raise_rate, force_raise=force_raise))
-        self.live.run('live')
+        with unprintable_values(0.4 if verbose else 0.0):
+            self.live = Built(prog, self.rec, World(world_seed or prog['seed_world'], raise_rate=raise_rate, force_raise=force_raise))
+            self.live.run('live')
         saves = [e for e in self.spy.log if e[0] == 'save']
         self.ok = len(saves) == 1
         if self.ok:
@@ -82,10 +89,15 @@ class ReplaySession(object):
         rec2._vp_spy = spy2
         return rec2
 
-    def replay(self, p2, w, enabled, recorder=None, faults=None):
+    def replay(self, p2, w, enabled, recorder=None, faults=None, verbose=None):
         """-> (Built of the replay, exception out of play() or None). Judges the cassette-immutability part."""
         from playback.tape_recorder import TapeRecorder
+        import contextlib
         ctx = self.ctx
+        verbose = self.verbose if verbose is None else verbose
+        if verbose:
+            p2 = dict(p2, unprintable_self=True)
+            ctx.count('replays_with_debug_logging_and_unprintable_objects')
         if recorder is not None:
             rec2, spy2 = recorder, recorder._vp_spy
             del spy2.log[:]
@@ -99,7 +111,8 @@ class ReplaySession(object):
         before = self.box.snapshot()
         err = None
         try:
-            rec2.play(self.rid, playback_function_for(rep))
+            with (env.debug_logging() if verbose else contextlib.nullcontext()):
+                rec2.play(self.rid, playback_function_for(rep))
         except BaseException as ex:  # noqa
             err = ex
         after = self.box.snapshot()
@@ -178,7 +191,7 @@ def lattice(ctx):
                     outcomes = []
                     for r in range(1 + idx % 3):
                         ctx.case(dict(row, replay_no=r))
-                        rep, err = sess.replay(p2, {'lattice_row': row}, enabled=(idx + r) % 2 == 0)
+                        rep, err = sess.replay(p2, {'lattice_row': row}, enabled=(idx + r) % 2 == 0, verbose=(idx + r) % 4 == 1)
                         calls = rep.journal.calls()
                         if len(calls) != 1:
                             ctx.violation('lattice replay made %d calls' % len(calls), {'lattice_row': row})
@@ -367,7 +380,7 @@ def random_pair(ctx, case_seed):
     p2['body'] = wrap_try(p2['body'])
     desc = {'P': describe(prog), 'P2': describe(p2), 'cassette': kind}
     w = {'case_seed': case_seed, 'pair': desc}
-    sess = ReplaySession(ctx, prog, kind, raise_rate=0.1)
+    sess = ReplaySession(ctx, prog, kind, raise_rate=0.1, verbose=(case_seed % 5 == 3))
     try:
         if not sess.ok:
             ctx.count('recordings_out_of_serializer_domain_or_unsaved')
